@@ -317,7 +317,8 @@ def build_odiags(out, layout):
                         if d["code"] in ("linker-route-missing-path-reference", "linker-duplicate-url-parameter"):
                             want += a["text"][a["text"].index("(") + 1:].find(ev)
                         elif d["code"] == "annotation-properties-invalid-value-for-key":
-                            want = a["col"] + a["text"].index("{")
+                            # (a mis-placed diagnostic may sit on an attribute that has no properties object at all)
+                            want = a["col"] + a["text"].index("{") if "{" in a["text"] else -1
                         rec["at_value"] = (sc == want)
             else:
                 rec["value"] = None
